@@ -74,9 +74,13 @@ theorem cache_fillers_read_only_client_and_caches :
 /-- The three caches are created with a positive capacity (so `Add` never dereferences a nil tail). -/
 theorem lru_caps_positive : ∀ c ∈ Gen.C05LruCaps.caps, 0 < c.2 := by decide
 
-/-- The capacities extracted are those of exactly the cache fields of the PyPI resolver. -/
+/-- The capacities extracted are those of exactly the cache fields of the PyPI resolver: the
+fields that receive a freshly created cache are, as a set, the stateful fields, and no field
+receives two. The order in which the constructor fills them, or the struct declares them, is
+immaterial (the fields are independent caches), so this is a permutation, not list equality. -/
 theorem lru_caps_cover_cache_fields :
-    Gen.C05LruCaps.caps.map (·.1) = Gen.C05ResolverShared.statefulFields.map (·.2.1) := by decide
+    (Gen.C05LruCaps.caps.map (·.1)).isPerm (Gen.C05ResolverShared.statefulFields.map (·.2.1)) = true ∧
+    (Gen.C05LruCaps.caps.map (·.1)).Nodup := by decide
 
 /-- The LRU model returns, step by step, the `Get` results and recency lists that the real
 `pypi/internal/lru` code produced on the recorded runs (evictions included). -/
